@@ -94,9 +94,8 @@ fn posting_values(p: &Post) -> Result<Option<(Multi, Multi)>, &'static str> {
         if a.num.is_zero() {
             return Err("zero price");
         }
-        if a.num.mant < 0 {
-            return Err("negative price");
-        }
+        // a negative per-unit price is just a factor (rate x quantity); a negative *total* is taken
+        // by magnitude with the sign of the quantity ("total with the sign of the quantity")
         if a.commodity == c {
             return Err("price in the amount's own commodity");
         }
